@@ -202,8 +202,8 @@ def main(argv=None):
         base = [m for m in main_res if m.unit.name == r.unit.name][0]
         if r.status != base.status:
             unstable.append(r.unit.name)
-    if unstable:
-        undecided.append('unstable under reseeding: ' + ', '.join(sorted(set(unstable))))
+    # a proof found under the default seed is a proof; a reseeded run that runs out of resources only shows that the proof is
+    # fragile — reported in the evidence (stability), never as undecided
 
     # known findings
     kf_lines = []
@@ -298,6 +298,7 @@ def main(argv=None):
             'units': unit_reports,
             'solver_time_ms': sum(r.smt_ms for r in main_res),
             'stability_runs': len(seed_res),
+            'unstable_under_reseeding': sorted(set(unstable)),
             'bounded': [{k: v for k, v in rec.items() if k != 'found'} | {'found': rec['found'][:5]} for rec in bnd],
             'evaluations': sum((rec.get('cases') or 0) for rec in bnd),
             'distinct_nontrivial': sum((rec.get('distinct') or 0) for rec in bnd),
